@@ -6,6 +6,7 @@ CONSTANTS
   Types = {"result"}
   OpenKinds = {"plain"}
   Cids = {"fresh", "empty", "dup"}
+  Bodies = {"none"}
   Attempts = {}
   IdRule = "replace"
   MaxHist = 5
